@@ -28,9 +28,10 @@ def cyc {α : Type} [Inhabited α] (xs : List α) (age : Nat) : α := xs.getD ((
 /-- samples of every slot of the tempering helper (always the parallel driver), mapped with `obsOf` -/
 def temperRender (T s f nrep : Nat) (script : String) (obsOf : Rep → List Rat) : String :=
   if chunkPanics nrep f then "panic" else
-  -- the parallel driver performs a tempering step after every s-th step as soon as there is a replica: the
-  -- observed swap script must have exactly that many steps
-  if decide (1 ≤ nrep) && decide (1 ≤ s) && (parseSwapScript script).length != T / s then
+  -- the parallel driver performs a tempering step after every s-th step as soon as there are TWO replicas (with one
+  -- replica it returns at once since `fix:` f20b8b5, finding F30; before, it touched the single replica): the observed
+  -- swap script must have exactly that many steps
+  if decide (2 ≤ nrep) && decide (1 ≤ s) && (parseSwapScript script).length != T / s then
     s!"SWAPSTEPS {(parseSwapScript script).length} DOCUMENTED {T / s}" else
   let R := mockSys [] [] []
   let c0 : List Rep × SwapScript := ((List.range nrep).map fun i => { gid := i, age := 0 }, parseSwapScript script)
